@@ -7,7 +7,15 @@ atomic logical clock) and TLC searches every history for a linearization: one in
 per call between its Call and Ret events, the answer the real call gave must be the answer of the
 sequential map at that point. After the goroutines finished, Map() must be the sequential map's
 content and Len() is compared with the number of keys (sentence 2). Forced histories hold a
-goroutine inside a Traverse callback / at the verif gate before the length counter is updated."""
+goroutine inside a Traverse callback / at the verif gate before the length counter is updated.
+
+Implementation-level layer LockedMapShards.tla (shard slots allocated on first touch, allocation
+disciplines locked / dcl / blind): checked against the sequential map for the sound disciplines, the
+blind one must violate it (sensitivity of the layer), and with Forced = TRUE it is the controller of
+the first-touch schedules: every maximal command list (S<g>:call, L<g> = g leaves the constructor)
+of the quick family plus a seeded sample of a larger one is forced on fresh real maps through the
+caller-supplied newMap constructor (harness/internal/c32/force.go); the histories are judged like
+all the others."""
 import os
 import re
 from vlib import core
@@ -76,6 +84,56 @@ def overlapping(evs):
     return n
 
 
+FT_KINDS = ["sharded2i", "locked4i", "deep2x2i", "nested2x2i", "sharded64i", "deep3x2x2i"]
+SCHED = re.compile(r'^"SCHED (\d+)((?: \S+)*)"$', re.M)
+
+
+def first_touch_cases(ctx, quick, lap):
+    """the implementation-level layer: invariants for the sound allocation disciplines, the candidate run for the
+    blind one, and the schedules to force (exhaustive small family + seeded sample of a larger one)"""
+    for cfg in (("LockedMapShards_mc_quick.cfg", "LockedMapShards_mc_quick2.cfg") if quick else
+                ("LockedMapShards_mc_thorough.cfg", "LockedMapShards_mc_thorough2.cfg")):
+        ctx.tlc("LockedMapShards", cfg, timeout=3000)
+        lap(cfg)
+    r = ctx.tlc("LockedMapShards", "LockedMapShards_cand.cfg", allow_violation=True, count=False)
+    lap("cand")
+    if not r.violated:
+        raise core.MachineryError("LockedMapShards_cand.cfg: the blind allocation discipline satisfies the properties - "
+                                  "the layer does not see a lost first touch any more")
+    ctx.extra["model_only_counterexamples"] = [
+        "LockedMapShards_cand.cfg (allocation discipline 'blind': inner map built outside the lock and stored without a second "
+        "look at the slot - NOT the pinned code, which is 'locked'): %s is violated by two creating calls on keys of one empty "
+        "slot; the schedules of this discipline are forced on the real maps (first-touch histories)" % r.violated]
+    scheds = []
+    r = ctx.tlc("LockedMapShards", "LockedMapShards_sched_quick.cfg", timeout=3000)
+    lap("sched_exhaustive")
+    exh = sorted(set(SCHED.findall(r.out)))
+    if len(exh) < 1000:
+        raise core.MachineryError("LockedMapShards_sched_quick.cfg printed %d schedules: %s" % (len(exh), r.out[-1500:]))
+    n_sim = 300 if quick else 4000
+    r = ctx.tlc("LockedMapShards", "LockedMapShards_sched_sim.cfg", workers=1, timeout=3000, count=False,
+                args=["-simulate", "num=%d" % n_sim, "-depth", 60, "-seed", ctx.seed])
+    lap("sched_sampled")
+    sim = sorted(set(SCHED.findall(r.out)))
+    if len(sim) < n_sim // 2:
+        raise core.MachineryError("LockedMapShards_sched_sim.cfg printed %d schedules: %s" % (len(sim), r.out[-1500:]))
+    m = re.findall(r"(\d+) states checked", r.out)
+    if m:
+        ctx.states += int(m[-1])
+        ctx.transitions += int(m[-1])
+    cases = []
+    for fam, lst in (("exhaustive", exh), ("sampled", sim)):
+        for j, (layout, cmds) in enumerate(lst):
+            cmds = cmds.split()
+            # every schedule on one kind of map in quick (rotating with the seed), on all of them in thorough; sampled: one
+            ks = [FT_KINDS[(j + ctx.seed + d) % len(FT_KINDS)] for d in ((0,) if quick else range(len(FT_KINDS)))] \
+                if fam == "exhaustive" else [FT_KINDS[(j + ctx.seed) % len(FT_KINDS)]]
+            for k in ks:
+                cases.append({"id": len(cases) + 1, "kind": k, "layout": layout, "cmds": cmds, "family": fam})
+    ctx.extra["first_touch_schedules"] = {"exhaustive_family": len(exh), "sampled_family": len(sim), "cases": len(cases)}
+    return cases
+
+
 MUTATORS = {"SetValue", "RemoveValue", "GetOrCreate", "Set", "Remove", "SetOrRemove"}
 
 
@@ -96,6 +154,10 @@ def empty_races_mutator(evs):
     return False
 
 
+def kind_class(kind):
+    return "locked" if kind == "locked" else ("single" if kind == "single" else "sharded")
+
+
 def brief(evs):
     out = []
     for e in evs:
@@ -110,8 +172,16 @@ def brief(evs):
 
 
 def run(ctx):
+    import time
     quick = ctx.tier == "quick"
+    t0 = [time.time()]
+    stage = ctx.extra.setdefault("stage_s", {})
+
+    def lap(name):
+        stage[name] = round(time.time() - t0[0], 1)
+        t0[0] = time.time()
     ctx.tlc("LockedMap", "LockedMap_mc_quick.cfg" if quick else "LockedMap_mc_thorough.cfg")
+    lap("LockedMap_mc")
 
     trace = os.path.join(ctx.work, "hist.ndjson")
     num = 600 if quick else 12000
@@ -119,10 +189,30 @@ def run(ctx):
     hs = split(core.read_ndjson(trace))
     if len(hs) < num:
         raise core.MachineryError("harness recorded %d of %d histories" % (len(hs), num))
+
+    lap("record")
+    # first-touch schedules from the implementation-level layer, forced on fresh maps
+    cases = first_touch_cases(ctx, quick, lap)
+    cpath, ftrace = os.path.join(ctx.work, "ftcases.ndjson"), os.path.join(ctx.work, "ft.ndjson")
+    core.write_ndjson(cpath, cases)
+    ctx.vh(["C32", "force", "--in", cpath, "--trace", ftrace, "--base", 1000000], timeout=3000)
+    lap("force")
+    fevs = core.read_ndjson(ftrace)
+    end = fevs[-1] if fevs and fevs[-1]["a"] == "End" else {}
+    fhs = split(fevs)
+    ctx.extra["first_touch_schedules"].update({"forced": len(fhs), "not_forced": end.get("not_forced"), "why_not": end.get("why")})
+    if len(fhs) < 0.95 * len(cases):
+        raise core.MachineryError("only %d of %d first-touch schedules could be forced: %s" % (len(fhs), len(cases), end))
+    # how often the real map let a second goroutine into the constructor of one slot is not constrained by the
+    # statement; it is reported (the pinned code: never more constructor calls than slots touched)
+    ctx.extra["first_touch_schedules"]["constructor_calls"] = sum(r.get("ctors", 0) for (r, _) in fhs)
+    nrec = len(hs)
+    hs = hs + fhs
     byi = {r["i"]: (r, evs) for (r, evs) in hs}
     ctx.rule = ("concurrent histories (2..4 goroutines x 3..5 calls, keys k1..k3, values 1..9; objects: single, sharded 2/4/64, deep "
-                "2x2/4x4, Locked[int]) + forced histories; non-trivial = at least one call started while another was pending; "
-                "distinct by the logged event sequence")
+                "2x2/4x4, Locked[int]) + forced histories (Traverse held, counter gate, first-touch schedules of LockedMapShards.tla "
+                "on fresh int-keyed sharded 2/4/64, deep 2x2/3x2x2, nested 2x2 maps); non-trivial = at least one call started while "
+                "another was pending; distinct by the logged event sequence")
     novl = 0
     for (r, evs) in hs:
         ov = overlapping(evs)
@@ -137,19 +227,35 @@ def run(ctx):
     # 1. linearizability (Len answers during the history not constrained), final Map(), final Len()
     notlin, finallen = set(), {}
     CH = 2000
-    for k in range(0, len(hs), CH):
-        nl, fl, _ = tlc_hist(ctx, hs[k:k + CH], "LockedMapTrace.cfg")
-        notlin |= nl
-        finallen.update(fl)
+    chunk, lines = [], 0
+    for n, hh in enumerate(hs):        # chunks of <= 4000 histories / 80000 trace lines
+        chunk.append(hh)
+        lines += 1 + len(hh[1])
+        if len(chunk) >= 2 * CH or lines >= 80000 or n == len(hs) - 1:
+            nl, fl, _ = tlc_hist(ctx, chunk, "LockedMapTrace.cfg")
+            notlin |= nl
+            finallen.update(fl)
+            chunk, lines = [], 0
 
+    lap("linearizability")
     # 2. diagnosis of the histories without a linearization: alone, with Traverse unconstrained;
     #    otherwise the call at the first line no path explains
-    diag = sorted(notlin)
-    ctx.extra["histories_not_linearizable"] = len(diag)
-    for i in diag[:10]:
+    alln = sorted(notlin)
+    ctx.extra["histories_not_linearizable"] = len(alln)
+    ctx.extra["histories_not_linearizable_by_class"] = {}
+    diag, per = [], {}
+    for i in alln:      # at most three per class of object / forced family, twelve in all
+        cl = "%s/%s" % (kind_class(byi[i][0]["kind"]), byi[i][0].get("forced", "random"))
+        ctx.extra["histories_not_linearizable_by_class"][cl] = ctx.extra["histories_not_linearizable_by_class"].get(cl, 0) + 1
+        per[cl] = per.get(cl, 0) + 1
+        if per[cl] <= 3 and len(diag) < 12:
+            diag.append(i)
+    nl2all = tlc_hist(ctx, [byi[i] for i in diag], "LockedMapTrace_notrav.cfg")[0] if diag else set()
+    for i in diag:
         r, evs = byi[i]
-        nl2, _, _ = tlc_hist(ctx, [byi[i]], "LockedMapTrace_notrav.cfg")
-        kindc = "locked" if r["kind"] == "locked" else ("single" if r["kind"] == "single" else "sharded")
+        nl2 = nl2all
+        kindc = kind_class(r["kind"])
+        ft = "first-touch;" if r.get("forced") == "first-touch" else ""
         twice = [e for e in evs if e["a"] == "Call" and e["op"] == "Traverse" and len(e["r"]) > 3]
         if twice:
             key = "traverse-visits-key-twice(%s)" % kindc
@@ -165,26 +271,32 @@ def run(ctx):
                 op = [e["op"] for e in evs if e["a"] == "Call" and e["c"] == ev["c"]][0]
             elif ev.get("a") == "Final":
                 op = "final-Map"
-            key = "not-linearizable(%s;%s)" % (kindc, op)
+            key = "not-linearizable(%s;%s%s)" % (kindc, ft, op)
             what = "history on %s has no linearization; first unexplained event: %s" % (r["kind"], ev)
+            if ft:
+                what += " (fresh map, commands %s, layout %s, %s constructor calls)" % (
+                    " ".join(r.get("cmds", [])), r.get("layout"), r.get("ctors"))
         ctx.violation(key, "%s: %s" % (what, brief(evs)[:40]), {"reset": r, "history": evs})
-    if len(diag) > 10:
-        ctx.extra["histories_not_diagnosed"] = len(diag) - 10
+    if len(alln) > len(diag):
+        ctx.extra["histories_not_diagnosed"] = len(alln) - len(diag)
 
+    lap("diagnosis")
     # 3. sentence 2: the reported length after the operations finished
     for i, (got, want) in sorted(finallen.items()):
         r, evs = byi[i]
-        key = "len-after-empty" if empty_races_mutator(evs) else "final-len-differs"
+        key = "len-after-empty" if empty_races_mutator(evs) else (
+            "final-len-differs(first-touch)" if r.get("forced") == "first-touch" else "final-len-differs")
         ctx.violation(key, "Len() = %d with %d keys in Map() after the history on %s%s: %s" % (
             got, want, r["kind"], " (forced %s)" % r["forced"] if r.get("forced") else "", brief(evs)[:40]),
             {"reset": r, "history": evs})
 
     # 4. stronger reading (reported only): Len answers during the history constrained as well
-    nls, _, _ = tlc_hist(ctx, hs[:CH], "LockedMapTrace_strict.cfg")
+    nls, _, _ = tlc_hist(ctx, hs[:min(CH, nrec)], "LockedMapTrace_strict.cfg")
     extra = sorted(nls - notlin)
     ctx.extra["stronger_reading_len_during_history"] = {
-        "histories_checked": min(CH, len(hs)), "not_linearizable_with_len_constrained": len(extra),
+        "histories_checked": min(CH, nrec), "not_linearizable_with_len_constrained": len(extra),
         "example": brief(byi[extra[0]][1])[:40] if extra else None}
+    lap("stronger_reading")
     ctx.assumptions = [
         "answers of Len calls made while other calls are pending are not constrained (the statement constrains the length after "
         "the operations finished); the stronger reading is counted in stronger_reading_len_during_history",
